@@ -52,8 +52,8 @@ theorem C02_delivered_counted (cap : Nat) (su td : Bool) (x : Test) (hx : x.xski
 /-- The verdict of a run in which some test, anywhere in the tree, ended abnormally is failure. -/
 theorem C02_verdict (cap : Nat) (hcap : 0 < cap) (t : Tree) (hok : t.AllOk cap .fork)
     (x : Bool × Bool × Test) (hmem : x ∈ t.allTests) (hab : x.2.2.abnormal cap x.1 x.2.1 = true) :
-    verdict (run ⟨cap, .fork⟩ t) = some 1 := by
-  rw [C01_verdict cap hcap .fork t hok]
+    verdict (run ⟨cap, .fork, r⟩ t) = some 1 := by
+  rw [C01_verdict cap hcap .fork r t hok]
   have : ¬ ((t.truth cap).f = 0 ∧ (t.truth cap).e = 0) := by
     intro h
     have := ((C01_anywhere cap t).mp h) x hmem
@@ -88,11 +88,11 @@ theorem C02_others_unaffected (cap : Nat) (hcap : 0 < cap) (name : String) (su t
     (hok : (Tree.node name su td subs (pre ++ x :: post)).AllOk cap .fork)
     (hok' : (Tree.node name su td subs (pre ++ post)).AllOk cap .fork) :
     ∃ before after,
-      ((run ⟨cap, .fork⟩ (.node name su td subs (pre ++ post))).out.filter Out.isResult).filter Out.isTestLine
+      ((run ⟨cap, .fork, r⟩ (.node name su td subs (pre ++ post))).out.filter Out.isResult).filter Out.isTestLine
         = before ++ after
-      ∧ ((run ⟨cap, .fork⟩ (.node name su td subs (pre ++ x :: post))).out.filter Out.isResult).filter Out.isTestLine
+      ∧ ((run ⟨cap, .fork, r⟩ (.node name su td subs (pre ++ x :: post))).out.filter Out.isResult).filter Out.isTestLine
         = before ++ x.results cap su td ([name] ++ [x.name]) ++ after := by
-  rw [C03_results cap hcap .fork _ hok, C03_results cap hcap .fork _ hok']
+  rw [C03_results cap hcap .fork r _ hok, C03_results cap hcap .fork r _ hok']
   refine ⟨(resultsSubs cap [name] subs).filter Out.isTestLine ++ resultsTests cap su td [name] pre,
           resultsTests cap su td [name] post, ?_, ?_⟩
   · simp [Tree.results, List.filter_append, resultsTests_append, resultsTests_isTestLine, Out.isTestLine,
@@ -103,7 +103,7 @@ theorem C02_others_unaffected (cap : Nat) (hcap : 0 < cap) (name : String) (su t
 /-- The hypothesis excluded by `Test.ok` is a real failure of the full statement (finding F02): a test
 that calls `skip_test()` and then dies is reported as skipped, not as an exception. -/
 theorem C02_F02_witness :
-    (run ⟨4096, .fork⟩ (.node "top" false false [] [{ name := "t", body := [.skip, .die (.signal 11)] }])).tot = ⟨0, 0, 1, 0⟩ := by
+    (run ⟨4096, .fork, .text⟩ (.node "top" false false [] [{ name := "t", body := [.skip, .die (.signal 11)] }])).tot = ⟨0, 0, 1, 0⟩ := by
   decide
 
 /-! Non-vacuity: dying tests of every kind meet the hypotheses. -/
